@@ -89,6 +89,10 @@ ClientStop(m, id) ==
     [] St(m, id) = "none"   -> [m EXCEPT !.popt = m.popt \cup {Opt("complete", id)}]   \* echo for an id that never ran: tolerated
     [] OTHER                -> m                                           \* terminal: nothing may be sent for it
 
+\* the handler may (must, see "wedge") give up a transport that keeps failing: after persistent read errors, or when
+\* the read-error time-out that a single read error armed fires before the next good read disarmed it
+GaveUp(m) == m.broken \/ m.rerr # "off"
+
 \* ---- per-operation outputs: data (next / data), error, complete -------------------------------
 OutData(m, e) ==
   LET id == e.id IN
@@ -137,10 +141,6 @@ OutAck(m, e) ==
   ELSE IF Opt("ack", "") \in m.popt THEN [m EXCEPT !.popt = m.popt \ {Opt("ack", "")}]
   ELSE Reject(m, "OutputAllowed", "unsolicited-ack", e.a)
 
-\* the handler may (must, see "wedge") give up a transport that keeps failing: after persistent read errors, or when
-\* the read-error time-out that a single read error armed fires before the next good read disarmed it
-GaveUp(m) == m.broken \/ m.rerr # "off"
-
 \* The init timeout (4408) runs on its own timer: it may fire at any moment while the connection was never
 \* acknowledged, also while the handler is busy with a message (whatever that message obliged is moot then).
 Close(m, e) ==
@@ -182,9 +182,11 @@ Eng(m, e) ==
   LET m1 == [m EXCEPT !.last = "eng." \o e.a, !.ctx = IF e.id = "" THEN "op=<none>"
                                                      ELSE IF e.id \in OpIds /\ m.op[e.id].inc # e.k THEN "op=stale" ELSE "op=id"] IN
   IF ~Live(m, e.id, e.k) THEN m1
-  ELSE IF e.code = 1 /\ ~m.op[e.id].stop
-       \* the operation's context is cancelled although neither the client stopped it nor the connection ended:
-       \* the server has silently given up an operation that never got its terminal message
+  ELSE IF e.code = 1 /\ ~m.op[e.id].stop /\ ~GaveUp(m)
+       \* the operation's context is cancelled although neither the client stopped it nor the connection ended
+       \* (nor is the server giving up a failing transport - its read-error time-out cancels everything before the
+       \* handler, blocked in a read, gets to exit): the server has silently given up an operation that never got
+       \* its terminal message
        THEN Reject(m1, "OneTerminal", "operation-cancelled-without-terminal", e.a)
   ELSE [m1 EXCEPT !.op[e.id].owe =
           CASE e.a = "data"   -> <<Owe("next", e.n)>>
